@@ -47,6 +47,35 @@ func (*wrongSigAB) B(...string) {}
 
 func (valImplA) A() {}
 
+// handler values of types that cannot be compared with == (legitimate: a registry stores handlers, it has no need
+// to compare them): a struct registered by value that holds a map, and a function type with methods
+type mapImplA struct{ tags map[string]int }
+
+func (mapImplA) A() {}
+
+type funcImplAB func() int
+
+func (funcImplAB) A() {}
+func (funcImplAB) B() {}
+
+// sameHandler compares two handler values without ever using == on an uncomparable dynamic type.
+func sameHandler(a, b interface{}) bool {
+	if a == nil || b == nil {
+		return a == nil && b == nil
+	}
+	ta, tb := reflect.TypeOf(a), reflect.TypeOf(b)
+	if ta != tb {
+		return false
+	}
+	if ta.Comparable() {
+		return a == b
+	}
+	if ta.Kind() == reflect.Func {
+		return reflect.ValueOf(a).Pointer() == reflect.ValueOf(b).Pointer()
+	}
+	return reflect.DeepEqual(a, b)
+}
+
 var handlerTypes = []interface{}{(*ifaceA)(nil), (*ifaceB)(nil), (*ifaceAB)(nil)}
 
 func genIdent(r *rand.Rand) string {
@@ -101,7 +130,12 @@ func genServiceDesc(r *rand.Rand, name string, ht interface{}) *grpc.ServiceDesc
 func goodHandler(r *rand.Rand, ht interface{}) interface{} {
 	switch ht.(type) {
 	case *ifaceA:
-		switch r.Intn(4) {
+		switch r.Intn(6) {
+		case 4:
+			return mapImplA{map[string]int{"id": r.Int()}}
+		case 5:
+			n := r.Int()
+			return funcImplAB(func() int { return n })
 		case 0:
 			return &implAB{r.Int()}
 		case 1:
@@ -116,6 +150,10 @@ func goodHandler(r *rand.Rand, ht interface{}) interface{} {
 		}
 		return &implB{r.Int()}
 	default:
+		if r.Intn(5) == 0 {
+			n := r.Int()
+			return funcImplAB(func() int { return n })
+		}
 		return &implAB{r.Int()}
 	}
 }
@@ -307,9 +345,9 @@ func c15History(e *core.Env, i int, r *rand.Rand, tnameOut *string, traceOut *[]
 						h = goodHandler(r, old.desc.HandlerType)
 					}
 				}
-				trace = appendTrace(traceOut, fmt.Sprintf("register-duplicate %s sameDesc=%v sameHandler=%v", name, d == old.desc, h == old.handler))
+				trace = appendTrace(traceOut, fmt.Sprintf("register-duplicate %s sameDesc=%v sameHandler=%v", name, d == old.desc, sameHandler(h, old.handler)))
 				if p, _ := tryRegister(reg, d, h); !p {
-					fail("duplicate-accepted", fmt.Sprintf("second registration for %s (same descriptor=%v, same handler=%v) did not panic", name, d == old.desc, h == old.handler))
+					fail("duplicate-accepted", fmt.Sprintf("second registration for %s (same descriptor=%v, same handler=%v) did not panic", name, d == old.desc, sameHandler(h, old.handler)))
 					return
 				}
 				if m := servedMethod(hsrv, hbase, d, old.desc); m != "" {
@@ -329,7 +367,7 @@ func c15History(e *core.Env, i int, r *rand.Rand, tnameOut *string, traceOut *[]
 				trace = appendTrace(traceOut, "query "+q)
 				d, h := hm.QueryService(q)
 				want, ok := model[q]
-				if ok && (!sameDesc(d, want.desc, viaView) || h != want.handler) {
+				if ok && (!sameDesc(d, want.desc, viaView) || !sameHandler(h, want.handler)) {
 					fail("query-wrong", fmt.Sprintf("QueryService(%q) returned (%p,%v) want (%p,%v)", q, d, h, want.desc, want.handler))
 					return
 				}
@@ -343,7 +381,7 @@ func c15History(e *core.Env, i int, r *rand.Rand, tnameOut *string, traceOut *[]
 				bad := ""
 				hm.ForEach(func(d *grpc.ServiceDesc, h interface{}) {
 					seen[d.ServiceName]++
-					if w, ok := model[d.ServiceName]; !ok || !sameDesc(d, w.desc, viaView) || w.handler != h {
+					if w, ok := model[d.ServiceName]; !ok || !sameDesc(d, w.desc, viaView) || !sameHandler(w.handler, h) {
 						bad = d.ServiceName
 					}
 				})
@@ -394,7 +432,7 @@ func c15History(e *core.Env, i int, r *rand.Rand, tnameOut *string, traceOut *[]
 		}
 		if hm != nil {
 			for nme, w := range model {
-				if d, h := hm.QueryService(nme); !sameDesc(d, w.desc, viaView) || h != w.handler {
+				if d, h := hm.QueryService(nme); !sameDesc(d, w.desc, viaView) || !sameHandler(h, w.handler) {
 					fail("query-wrong", "final QueryService("+nme+") lost or changed the registration")
 				}
 			}
